@@ -158,7 +158,11 @@ func patternCases(r *rand.Rand, n int) []Case {
 		for _, o := range patOps {
 			ops = append(ops, Op{o, [][]byte{[]byte(l)}})
 		}
-		ops = append(ops, Op{"format.processLine", [][]byte{[]byte(l), bytes.Repeat([]byte{'x'}, r.Intn(4))}})
+		depth := r.Intn(4)
+		if i%5 == 2 {
+			depth = 4 + r.Intn(12) // deeply nested blocks: two spaces per open block at every depth
+		}
+		ops = append(ops, Op{"format.processLine", [][]byte{[]byte(l), bytes.Repeat([]byte{'x'}, depth)}})
 		cases = append(cases, Case{Kind: "pattern-line", Ops: ops})
 	}
 	return cases
@@ -489,6 +493,17 @@ func genFormatCases(r *rand.Rand, tier string, withOracle bool) []Case {
 	}
 	fixed := []string{"", "\n", "\n\n", hdr, strings.TrimSuffix(hdr, "\n"), hdr + "\n", "##! Please refer to the documentation at\n", "foo", "foo\n\n\n", "  foo\n\tbar\n",
 		"##!> assemble\nfoo\n##!<\n", "##!<\n", "##!> cmdline unix\n##!> assemble\na\n##!<\n##!<\nb\n", "##!+ i\n[A-Z]\n", "##!+ x\n", "##!> include a -- b\n", "a\r\nb\r\n", " \n \n"}
+	{
+		// blocks nested 13 deep, every kind of line at every depth
+		var deep strings.Builder
+		for d := 0; d < 13; d++ {
+			deep.WriteString("##!> " + []string{"assemble", "cmdline unix"}[d%2] + "\nentry" + fmt.Sprint(d) + "\n##! comment\n##!=>\n##!> define d" + fmt.Sprint(d) + " x\n")
+		}
+		for d := 0; d < 13; d++ {
+			deep.WriteString("tail" + fmt.Sprint(d) + "\n##!<\n")
+		}
+		fixed = append(fixed, deep.String())
+	}
 	for _, f := range fixed {
 		c := Case{Kind: "fixed", Ops: []Op{{"format.file", [][]byte{[]byte(f)}}}}
 		if withOracle {
